@@ -449,4 +449,476 @@ theorem validateInputs_np {L : Ledger} {O tx tt fork s} (hpos : ∀ u ∈ L.utxo
         · split at h <;> simp at h
 
 
+open Mixin.Facts.Gen
+/-- ledger invariants of reachable states that `validate_total` needs -/
+structure LedgerInv (L : Ledger) : Prop where
+  /-- stored outputs have positive amounts (validateOutputs rejects zero) -/
+  utxoPos : ∀ u ∈ L.utxos, 0 < u.amount
+  /-- an unspent output's creating transaction is stored, and has that output with that type -/
+  utxoTx : ∀ u ∈ L.utxos, ∃ t, L.tx u.hash = some t ∧ ∃ o, t.outputs[u.index]? = some o ∧ o.type = u.type
+  /-- stored transactions have at least one output (Validate rejects empty output lists) -/
+  txOutputs : ∀ t ∈ L.txs, t.outputs ≠ []
+  /-- node states are one of the four written by the kernel -/
+  nodeStates : ∀ n ∈ L.nodes, n.state = stPledging ∨ settled n.state = true
+  /-- a pledging node records its (stored) pledge transaction -/
+  pledgingTx : ∀ n ∈ L.nodes, n.state = stPledging → ∃ t, L.tx n.tx = some t ∧ t.txType = ttNodePledge
+  /-- the snapshot time is not before the first custodian record (custodianEpoch ≤ ts) -/
+  custodian : L.custodian.isSome = true
+  /-- custodian nodes have distinct custodian addresses (ParseCustodianUpdateNodesExtra) -/
+  custodianNodup : ∀ c, L.custodian = some c → (c.nodes.map (·.1)).Nodup
+
+theorem outputTxType_vals (t : Nat) : outputTxType t ≠ ttMint ∧ outputTxType t ≠ ttDeposit := by
+  unfold outputTxType
+  repeat' split
+  all_goals decide
+
+theorem typeOfOutputs_vals : ∀ (outs : List Output) (b : Bool),
+    typeOfOutputs outs b ≠ ttMint ∧ typeOfOutputs outs b ≠ ttDeposit := by
+  intro outs
+  induction outs with
+  | nil => intro b; unfold typeOfOutputs; split <;> decide
+  | cons o os ih =>
+    intro b
+    unfold typeOfOutputs
+    split
+    · exact outputTxType_vals _
+    · exact ih _
+
+theorem typeOfInputs_vals : ∀ (ins : List Input) (t : Nat), typeOfInputs ins = some t →
+    t = ttMint ∨ t = ttDeposit ∨ t = ttUnknown := by
+  intro ins
+  induction ins with
+  | nil => intro t h; simp [typeOfInputs] at h
+  | cons i is ih =>
+    intro t h
+    unfold typeOfInputs at h
+    split at h
+    · simp at h; exact Or.inl h.symm
+    · split at h
+      · simp at h; exact Or.inr (Or.inl h.symm)
+      · split at h
+        · simp at h; exact Or.inr (Or.inr h.symm)
+        · exact ih t h
+
+/-- a transaction whose type is none of mint / deposit / unknown has only ordinary inputs -/
+theorem typeOfInputs_none {tx : Tx} (h1 : txType tx ≠ ttMint) (h2 : txType tx ≠ ttDeposit)
+    (h3 : txType tx ≠ ttUnknown) : typeOfInputs tx.inputs = none := by
+  cases h : typeOfInputs tx.inputs with
+  | none => rfl
+  | some t =>
+    have := typeOfInputs_vals _ _ h
+    simp [txType, h] at h1 h2 h3
+    omega
+
+theorem single_mint {tx : Tx} {x} (hx : tx.inputs = [x]) (ht : txType tx = ttMint) : x.mint.isSome = true := by
+  by_cases hm : x.mint.isSome = true
+  · exact hm
+  · exfalso
+    unfold txType at ht
+    rw [hx] at ht
+    by_cases hd : x.deposit.isSome = true
+    · simp [typeOfInputs, hm, hd] at ht; revert ht; decide
+    · by_cases hg : x.genesis = true
+      · simp [typeOfInputs, hm, hd, hg] at ht; revert ht; decide
+      · simp [typeOfInputs, hm, hd, hg] at ht
+        exact (typeOfOutputs_vals _ _).1 ht
+
+theorem single_deposit {tx : Tx} {x} (hx : tx.inputs = [x]) (ht : txType tx = ttDeposit) :
+    x.deposit.isSome = true := by
+  by_cases hd : x.deposit.isSome = true
+  · exact hd
+  · exfalso
+    unfold txType at ht
+    rw [hx] at ht
+    by_cases hm : x.mint.isSome = true
+    · simp [typeOfInputs, hm] at ht; revert ht; decide
+    · by_cases hg : x.genesis = true
+      · simp [typeOfInputs, hm, hd, hg] at ht; revert ht; decide
+      · simp [typeOfInputs, hm, hd, hg] at ht
+        exact (typeOfOutputs_vals _ _).2 ht
+
+/-- the early return of the input loop happens only in mint / deposit typed transactions -/
+theorem early_type {L tx fork fl i}
+    (hl : inputsLoop L tx (txType tx) fork 0 tx.inputs {} = .ok (.early fl i)) :
+    txType tx = ttMint ∨ txType tx = ttDeposit := by
+  obtain ⟨pre, x, post, he, hpre, _, hx⟩ := loop_early _ _ _ _ _ hl
+  have htype : typeOfInputs tx.inputs = typeOfInputs (x :: post) := by
+    rw [he]; exact typeOfInputs_append hpre _
+  rcases hx with ⟨m, hm, _⟩ | ⟨hm, d, hdp, _⟩
+  · left; simp [txType, htype, typeOfInputs, hm]
+  · right; simp [txType, htype, typeOfInputs, hm, hdp]
+
+
+theorem validateScript_np {f s} : validateScript f ≠ .error (.panic s) := by simp [validateScript]
+
+theorem validateMint_np {L tx s} (ht : txType tx = ttMint) : validateMint L tx ≠ .error (.panic s) := by
+  intro h
+  unfold validateMint at h
+  split at h
+  · rename_i inp hi
+    have hm := single_mint hi ht
+    simp only [bind_panic, guardRej_not_panic, false_or] at h
+    obtain ⟨_, _, _, _, h⟩ := h
+    split at h
+    · simp_all
+    · simp only [bind_panic, guardRej_not_panic, false_or] at h
+      obtain ⟨_, _, h⟩ := h
+      split at h
+      · simp at h
+      · split at h
+        · simp at h
+        · split at h <;> simp at h
+  · simp at h
+
+theorem verifyDepositData_np {L tx s x} (hx : tx.inputs = [x]) (hd : x.deposit.isSome = true) :
+    verifyDepositData L tx ≠ .error (.panic s) := by
+  intro h
+  unfold verifyDepositData at h
+  simp only [hx, List.head?_cons] at h
+  obtain ⟨d, hd'⟩ := Option.isSome_iff_exists.1 hd
+  simp only [hd'] at h
+  simp only [bind_panic, guardRej_not_panic, false_or, guardRej_ok] at h
+  obtain ⟨_, _, _, hz, _, _, h⟩ := h
+  split at h
+  · simp at h
+  · split at h
+    · rename_i hn
+      have := add_none hn
+      simp at hz
+      omega
+    · simp only [bind_panic, guardRej_not_panic, false_or, and_false, exists_false] at h
+
+theorem validateDeposit_np {L : Ledger} {O tx s} (ht : txType tx = ttDeposit) (hc : L.custodian.isSome = true) :
+    validateDeposit L O tx ≠ .error (.panic s) := by
+  intro h
+  unfold validateDeposit at h
+  simp only [bind_panic, guardRej_not_panic, false_or, guardRej_ok] at h
+  obtain ⟨_, h1, _, _, _, _, h⟩ := h
+  have hx : ∃ x, tx.inputs = [x] := by
+    simp at h1
+    match hl : tx.inputs, h1 with
+    | [x], _ => exact ⟨x, rfl⟩
+  obtain ⟨x, hx⟩ := hx
+  have hd := single_deposit hx ht
+  split at h
+  · simp at h
+  · simp only [bind_panic, verifyDepositData_np hx hd, false_or] at h
+    obtain ⟨_, _, h⟩ := h
+    split at h
+    · simp at h
+    · split at h
+      · simp_all
+      · simp only [bind_panic, guardRej_not_panic, false_or] at h
+        obtain ⟨_, _, h⟩ := h
+        obtain ⟨d, hd'⟩ := Option.isSome_iff_exists.1 hd
+        simp only [hx, List.head?_cons, Option.bind_some, hd'] at h
+        split at h <;> simp at h
+
+theorem validateWithdrawalSubmit_np {tx f s} (ho : 1 ≤ tx.outputs.length) :
+    validateWithdrawalSubmit tx f ≠ .error (.panic s) := by
+  intro h
+  unfold validateWithdrawalSubmit at h
+  simp only [bind_panic, guardRej_not_panic, false_or] at h
+  obtain ⟨_, _, _, _, h⟩ := h
+  split at h
+  · rename_i hn
+    cases ht : tx.outputs with
+    | nil => simp [ht] at ho
+    | cons a b => simp [ht] at hn
+  · simp only [bind_panic, guardRej_not_panic, false_or, and_false, exists_false] at h
+
+theorem validateWithdrawalClaim_np {L : Ledger} {O tx f s} (ho : 1 ≤ tx.outputs.length)
+    (hc : L.custodian.isSome = true) (hto : ∀ t ∈ L.txs, t.outputs ≠ []) :
+    validateWithdrawalClaim L O tx f ≠ .error (.panic s) := by
+  intro h
+  unfold validateWithdrawalClaim at h
+  simp only [bind_panic, guardRej_not_panic, false_or] at h
+  obtain ⟨_, _, _, _, _, _, h⟩ := h
+  split at h
+  · split at h
+    · rename_i hn
+      cases ht : tx.outputs with
+      | nil => simp [ht] at ho
+      | cons a b => simp [ht] at hn
+    · simp only [bind_panic, guardRej_not_panic, false_or] at h
+      obtain ⟨_, _, _, _, h⟩ := h
+      split at h
+      · simp at h
+      · rename_i submit hs
+        split at h
+        · rename_i hn
+          have := hto submit (tx_mem hs).1
+          cases hso : submit.outputs with
+          | nil => exact this hso
+          | cons a b => simp [hso] at hn
+        · simp only [bind_panic, guardRej_not_panic, false_or] at h
+          obtain ⟨_, _, _, _, h⟩ := h
+          split at h
+          · simp_all
+          · simp at h
+  · simp at h
+
+
+/-- a completed input loop over a single input -/
+theorem loop_single {L tx tt fork inp a} (hx : tx.inputs = [inp])
+    (hl : inputsLoop L tx tt fork 0 tx.inputs {} = .ok (.full a)) :
+    ∃ u ks, L.utxo inp.hash inp.index = some u ∧ validateUTXO 0 u tx tt 0 = .ok ks ∧
+      a.filter = [((inp.hash, inp.index), u)] ∧ a.keySigs = ks := by
+  have h := loop_full _ _ _ _ hl
+  rw [hx] at h
+  obtain ⟨_, _, _, u, ks, hu, _, _, hv, hrest⟩ := h
+  simp [LoopSpec] at hrest
+  subst hrest
+  exact ⟨u, ks, hu, by simpa using hv, by simp [accStep], by simp [accStep]⟩
+
+/-- a non-mint, non-deposit transaction that passed validateInputs completed the loop -/
+theorem inputs_full {L O tx fork f i} (h : validateInputs L O tx (txType tx) fork = .ok (f, i))
+    (h1 : txType tx ≠ ttMint) (h2 : txType tx ≠ ttDeposit) :
+    ∃ a, inputsLoop L tx (txType tx) fork 0 tx.inputs {} = .ok (.full a) ∧ f = a.filter ∧ i = a.amount := by
+  rcases validateInputs_ok h with ⟨fl, hl⟩ | h
+  · rcases early_type hl with h | h <;> contradiction
+  · exact h
+
+theorem validateNodePledge_np {L O tx fork f i s}
+    (hin : validateInputs L O tx (txType tx) fork = .ok (f, i)) (ht : txType tx = ttNodePledge) :
+    validateNodePledge L O tx f ≠ .error (.panic s) := by
+  intro h
+  obtain ⟨a, hl, hf, _⟩ := inputs_full hin (by rw [ht]; decide) (by rw [ht]; decide)
+  unfold validateNodePledge at h
+  simp only [bind_panic, guardRej_not_panic, false_or, guardRej_ok] at h
+  obtain ⟨_, _, _, _, _, h3, h⟩ := h
+  simp at h3
+  obtain ⟨x, hx⟩ : ∃ x, tx.inputs = [x] := by
+    match hl' : tx.inputs, h3.1 with
+    | [x], _ => exact ⟨x, rfl⟩
+  obtain ⟨u, ks, _, _, hfil, _⟩ := loop_single hx hl
+  simp only [hx, List.head?_cons, hf, hfil] at h
+  simp only [List.find?_cons, BEq.rfl] at h
+  simp only [bind_panic, guardRej_not_panic, false_or, and_false, exists_false] at h
+
+/-- the node scan never dereferences nil when every state is one the kernel writes, and it
+    returns a member in PLEDGING state -/
+theorem findPledging_spec {site : Site} : ∀ (nodes : List NodeRec) (p : Option NodeRec),
+    (∀ n ∈ nodes, n.state = stPledging ∨ settled n.state = true) →
+    (∀ s, findPledging site nodes p ≠ .error (.panic s)) ∧
+    (∀ r, findPledging site nodes p = .ok (some r) → p = some r ∨ (r ∈ nodes ∧ r.state = stPledging)) := by
+  intro nodes
+  induction nodes with
+  | nil => intro p _; simp [findPledging]
+  | cons n ns ih =>
+    intro p hst
+    have hn := hst n (by simp)
+    have ih' := fun p => ih p (fun m hm => hst m (by simp [hm]))
+    unfold findPledging
+    split
+    · refine ⟨(ih' p).1, fun r hr => ?_⟩
+      rcases (ih' p).2 r hr with h | h
+      · exact Or.inl h
+      · exact Or.inr ⟨by simp [h.1], h.2⟩
+    · rename_i hns
+      rcases hn with hn | hn
+      · split
+        · refine ⟨(ih' _).1, fun r hr => ?_⟩
+          rcases (ih' _).2 r hr with h | h
+          · simp at h; subst h; exact Or.inr ⟨by simp, hn⟩
+          · exact Or.inr ⟨by simp [h.1], h.2⟩
+        · rename_i hc
+          have hp : p.isNone = false := by
+            cases p <;> simp_all
+          simp [hp]
+      · simp_all
+
+theorem validateNodeAccept_np {L : Ledger} {O tx s} (hI : LedgerInv L) :
+    validateNodeAccept L O tx ≠ .error (.panic s) := by
+  intro h
+  unfold validateNodeAccept at h
+  simp only [bind_panic, guardRej_not_panic, false_or] at h
+  obtain ⟨_, _, _, _, _, _, h⟩ := h
+  split at h
+  · rename_i sig inp _ _
+    have hfp := findPledging_spec (site := .validateNodeAccept) L.nodes none hI.nodeStates
+    simp only [bind_panic, hfp.1, false_or] at h
+    obtain ⟨r, hr, h⟩ := h
+    cases r with
+    | none => simp at h
+    | some pledging =>
+      rcases hfp.2 pledging hr with hc | ⟨hmem, hst⟩
+      · simp at hc
+      · obtain ⟨t, ht, htt⟩ := hI.pledgingTx pledging hmem hst
+        simp only [bind_panic, guardRej_not_panic, false_or, guardRej_ok] at h
+        obtain ⟨_, heq, h⟩ := h
+        simp at heq
+        rw [← heq, ht] at h
+        simp only at h
+        split at h
+        · simp only [bind_panic, guardRej_not_panic, false_or] at h
+          obtain ⟨_, _, h⟩ := h
+          rw [htt] at h
+          simp only [bind_panic, guardRej_not_panic, false_or, and_false, exists_false, BEq.rfl, Bool.true_or,
+            Bool.not_true, Bool.false_eq_true, if_false] at h
+        · simp at h
+  · simp at h
+
+
+theorem validateNodeRemove_np {L : Ledger} {O tx fork f i s} (hI : LedgerInv L)
+    (hin : validateInputs L O tx (txType tx) fork = .ok (f, i)) (ht : txType tx = ttNodeRemove) :
+    validateNodeRemove L tx ≠ .error (.panic s) := by
+  intro h
+  obtain ⟨a, hl, _, _⟩ := inputs_full hin (by rw [ht]; decide) (by rw [ht]; decide)
+  unfold validateNodeRemove at h
+  simp only [bind_panic, guardRej_not_panic, false_or] at h
+  obtain ⟨_, _, _, _, _, _, h⟩ := h
+  split at h
+  · rename_i inp hx
+    obtain ⟨u, ks, hu, _, _, _⟩ := loop_single hx hl
+    obtain ⟨hm, hh, _⟩ := utxo_mem hu
+    obtain ⟨t, htx, _⟩ := hI.utxoTx u hm
+    rw [hh] at htx
+    rw [htx] at h
+    simp only [bind_panic, guardRej_not_panic, false_or] at h
+    obtain ⟨_, _, h⟩ := h
+    split at h
+    · simp only [bind_panic, guardRej_not_panic, false_or, and_false, exists_false] at h
+    · simp at h
+  · simp at h
+
+theorem nodup_reverse' {α} {l : List α} (h : l.Nodup) : l.reverse.Nodup := by
+  unfold List.Nodup at *
+  exact List.pairwise_reverse.2 (h.imp (fun hab => Ne.symm hab))
+
+theorem mapOf_keys : ∀ (l : List (Id × Id)) (e : Id × Id), e ∈ mapOf l → e.1 ∈ l.map (·.1) := by
+  intro l
+  induction l with
+  | nil => intro e h; simp [mapOf] at h
+  | cons kv r ih =>
+    intro e h
+    obtain ⟨k, v⟩ := kv
+    simp only [mapOf, List.mem_cons, List.mem_filter] at h
+    rcases h with h | ⟨h, _⟩
+    · simp [h]
+    · simp only [List.map_cons, List.mem_cons]; exact Or.inr (ih e h)
+
+theorem mapOf_length : ∀ (l : List (Id × Id)), (l.map (·.1)).Nodup → (mapOf l).length = l.length := by
+  intro l
+  induction l with
+  | nil => intro _; rfl
+  | cons kv r ih =>
+    intro h
+    obtain ⟨k, v⟩ := kv
+    simp only [List.map_cons, List.nodup_cons] at h
+    have hf : (mapOf r).filter (fun e => e.1 != k) = mapOf r := by
+      apply List.filter_eq_self.2
+      intro e he
+      have := mapOf_keys r e he
+      have hne : e.1 ≠ k := fun hc => h.1 (hc ▸ this)
+      simpa using hne
+    simp [mapOf, hf, ih h.2]
+
+theorem validateCustodianUpdateNodes_np {L : Ledger} {O tx s} (hI : LedgerInv L) :
+    validateCustodianUpdateNodes L O tx ≠ .error (.panic s) := by
+  intro h
+  unfold validateCustodianUpdateNodes at h
+  simp only [bind_panic, guardRej_not_panic, false_or] at h
+  obtain ⟨_, _, _, _, h⟩ := h
+  split at h
+  · simp only [bind_panic, guardRej_not_panic, false_or] at h
+    obtain ⟨_, _, _, _, h⟩ := h
+    split at h
+    · simp at h
+    · simp only [bind_panic, guardRej_not_panic, false_or] at h
+      obtain ⟨_, _, h⟩ := h
+      split at h
+      · simp at h
+      · rename_i prev hp
+        simp only [bind_panic, guardRej_not_panic, false_or] at h
+        obtain ⟨_, _, h⟩ := h
+        have hnd := hI.custodianNodup prev hp
+        have hlen : (mapOfLast prev.nodes).length = prev.nodes.length := by
+          unfold mapOfLast
+          rw [mapOf_length _ (by rw [List.map_reverse]; exact nodup_reverse' hnd)]
+          simp
+        simp only [hlen, bne_self_eq_false, Bool.false_eq_true, if_false] at h
+        simp only [bind_panic, guardRej_not_panic, false_or] at h
+        obtain ⟨_, _, h⟩ := h
+        split at h
+        · simp at h
+        · simp at h
+  · simp at h
+
+
+theorem validateInputs_keysigs {L O tx tt fork f i a}
+    (h : validateInputs L O tx tt fork = .ok (f, i))
+    (hl : inputsLoop L tx tt fork 0 tx.inputs {} = .ok (.full a))
+    (h1 : tt ≠ ttNodeAccept) (h2 : tt ≠ ttNodeRemove) : tx.inputs.length ≤ a.keySigs.length := by
+  unfold validateInputs at h
+  simp only [bind_ok] at h
+  obtain ⟨r, hr, h⟩ := h
+  rw [hl] at hr
+  cases hr
+  simp only at h
+  split at h
+  · rename_i hc; simp at hc; rcases hc.2 with hc | hc <;> contradiction
+  · split at h
+    · simp at h
+    · omega
+
+theorem validateUTXO_collects {k u tx tt off ks} (h : validateUTXO k u tx tt off = .ok ks) (hne : ks ≠ []) :
+    u.type = otScript ∨ u.type = otNodeRemove := by
+  unfold validateUTXO at h
+  split at h
+  · rename_i hc; simpa using hc
+  · split at h
+    · split at h <;> simp at h; exact absurd h hne
+    · split at h
+      · split at h <;> simp at h; exact absurd h hne
+      · simp at h
+
+theorem validateNodeCancel_np {L : Ledger} {O tx fork f i s} (hI : LedgerInv L)
+    (hin : validateInputs L O tx (txType tx) fork = .ok (f, i)) (ht : txType tx = ttNodeCancel) :
+    validateNodeCancel L O tx ≠ .error (.panic s) := by
+  intro h
+  obtain ⟨a, hl, _, _⟩ := inputs_full hin (by rw [ht]; decide) (by rw [ht]; decide)
+  have hks := validateInputs_keysigs hin hl (by rw [ht]; decide) (by rw [ht]; decide)
+  unfold validateNodeCancel at h
+  simp only [bind_panic, guardRej_not_panic, false_or] at h
+  obtain ⟨_, _, _, _, _, _, h⟩ := h
+  split at h
+  · rename_i sig cancel script inp _ _ hx
+    -- the single input is an ordinary (signed) output, so its creating transaction cannot be a pledge
+    obtain ⟨u, ks, hu, hv, _, hk⟩ := loop_single hx hl
+    have hne : ks ≠ [] := by
+      intro hc; rw [hx, hk, hc] at hks; simp at hks
+    have hty := validateUTXO_collects hv hne
+    obtain ⟨hm, hh, _⟩ := utxo_mem hu
+    obtain ⟨t', htx', o, ho, hot⟩ := hI.utxoTx u hm
+    rw [hh] at htx'
+    simp only [bind_panic, guardRej_not_panic, false_or] at h
+    obtain ⟨_, _, _, _, _, _, _, _, h⟩ := h
+    have hfp := findPledging_spec (site := .validateNodeCancel) L.nodes none hI.nodeStates
+    simp only [hfp.1, false_or] at h
+    obtain ⟨r, hr, h⟩ := h
+    cases r with
+    | none => simp at h
+    | some pledging =>
+      simp only [bind_panic, guardRej_not_panic, false_or, guardRej_ok] at h
+      obtain ⟨_, _, h⟩ := h
+      rw [htx'] at h
+      simp only at h
+      split at h
+      · rename_i po hpo
+        simp only [bind_panic, guardRej_not_panic, false_or, guardRej_ok] at h
+        obtain ⟨_, hpt, _⟩ := h
+        rw [hpo] at ho
+        have : o = po := by
+          cases hi : u.index with
+          | zero => simp [hi] at ho; exact ho.symm
+          | succ n => simp [hi] at ho
+        subst this
+        simp at hpt
+        rw [hpt] at hot
+        rcases hty with h' | h' <;> (rw [h'] at hot; revert hot; decide)
+      · simp at h
+  · simp at h
+
+
 end Mixin.Validate
